@@ -2,6 +2,7 @@ package base
 
 import (
 	"strconv"
+	"strings"
 
 	"github.com/relex/gotils/promexporter/promext"
 	"github.com/relex/gotils/promexporter/promreg"
@@ -126,6 +127,10 @@ func (pcounter *LogProcessCounterSet) SelectMetricKeySet(record *LogRecord) *Log
 	if !found {
 		// copy transient field values from record for storing into map and counters
 		permKeys := util.DeepCopyStrings(tempKeys)
+		for i, key := range permKeys {
+			// label values must be valid UTF-8 or the Prometheus client panics
+			permKeys[i] = strings.ToValidUTF8(key, "\uFFFD")
+		}
 		permMergedKey := util.DeepCopyStringFromBytes(tempMergedKey)
 		customCounters := make([]*logCustomCounterImpl, len(pcounter.customCounterVecMap))
 		for _, vec := range pcounter.customCounterVecMap {
